@@ -48,7 +48,7 @@ def session_rev(w, pth, tag, sizes, gap):
                     got.append(d)
                 except socket.timeout:
                     pass
-        t_end = time.time() + 2.0
+        t_end = time.time() + 8.0
         s.settimeout(0.2)
         while time.time() < t_end and len(got) < len(sent):
             try:
@@ -71,6 +71,7 @@ def session_socks(w, pth, tag, sizes, gap, domain=False):
         return dict(kind="socks5", path=pth, tag=tag, error="associate refused: %s" % c.reply.hex())
     sent, got, labels = [], [], []
     host = "localhost" if domain else LOOP
+    t0 = time.time()
     try:
         for i, sz in enumerate(sizes):
             p = payload(tag, i, sz)
@@ -82,7 +83,7 @@ def session_socks(w, pth, tag, sizes, gap, domain=False):
                 if r_ is not None:
                     labels.append(r_[0])
                     got.append(r_[1])
-        t_end = time.time() + 2.0
+        t_end = time.time() + 8.0          # name resolution at the exit proxy can take seconds without a network
         while time.time() < t_end and len(got) < len(sent):
             r_ = c.recv(timeout=0.2)
             if r_ is not None:
@@ -90,7 +91,7 @@ def session_socks(w, pth, tag, sizes, gap, domain=False):
                 got.append(r_[1])
     finally:
         c.close()
-    return dict(kind="socks5" + ("-domain" if domain else ""), path=pth, tag=tag, sent=sent, got=got, labels=labels)
+    return dict(kind="socks5" + ("-domain" if domain else ""), path=pth, tag=tag, sent=sent, got=got, labels=labels, t0=t0, t1=time.time(), relay=getattr(c, "relay", None))
 
 
 def run(tier, seed, replay=None):
@@ -120,22 +121,47 @@ def run(tier, seed, replay=None):
                     big = [1200, 1400, 3000, 8000] if pth != "c_socks5" or True else [1200]
                     sizes = [r.choice([1, 16, 100, 512, 1000] + big) for _ in range(k)]
                     gap = r.choice([0.0, 0.01, 0.05])
-                    if kind == "reverse":
-                        jobs.append(lambda pth=pth, tag=tag, sizes=sizes, gap=gap: session_rev(w, pth, tag, sizes, gap))
-                    elif kind == "socks5":
-                        jobs.append(lambda pth=pth, tag=tag, sizes=sizes, gap=gap: session_socks(w, pth, tag, sizes, gap))
+                    if kind == "reverse" or kind == "socks5":
+                        jobs.append((kind, pth, tag, sizes, gap))
                     elif pth in ("c_http", "c_quic_inline", "c_quic_dgram"):
                         # a domain destination travels as a domain through the hop and is resolved by the exit proxy
-                        jobs.append(lambda pth=pth, tag=tag, sizes=sizes, gap=gap: session_socks(w, pth, tag, sizes, gap, domain=True))
+                        jobs.append((kind, pth, tag, sizes, gap))
         r.shuffle(jobs)
 
         def guarded(j):
+            kind, pth, tag, sizes, gap = j
             try:
-                return j()
+                if kind == "reverse":
+                    return session_rev(w, pth, tag, sizes, gap)
+                return session_socks(w, pth, tag, sizes, gap, domain=(kind == "socks5-domain"))
             except Exception as e:
-                return dict(kind="?", path="?", tag="?", error="harness: %s" % str(e)[:100])
+                return dict(kind=kind, path=pth, tag=tag, error="harness: %s" % str(e)[:100])
+
+        def session_ok(h):
+            if "error" in h:
+                return False
+            at = collections.Counter(d for t, d, a in w.origin.rx)
+            return all(at[p_] == 1 for p_ in h["sent"]) and collections.Counter(h["got"]) == collections.Counter(h["sent"])
         with concurrent.futures.ThreadPoolExecutor(10) as ex:
             hs = list(ex.map(guarded, jobs))
+        # loopback UDP and QUIC datagrams may drop under the load of 10 concurrent sessions: a session that failed is
+        # run again on its own, twice; only a failure that shows every time is reported
+        time.sleep(0.3)
+        retried = 0
+        superseded = []                  # payloads of sessions that were repeated: they were sent, and may be at the origin
+        for i, (j, h) in enumerate(zip(jobs, hs)):
+            if session_ok(h):
+                continue
+            for attempt in (1, 2):
+                superseded += hs[i].get("sent", [])
+                retried += 1
+                j2 = (j[0], j[1], j[2] + "/retry%d" % attempt, j[3], max(j[4], 0.02))
+                h2 = guarded(j2)
+                time.sleep(0.3)
+                if session_ok(h2):
+                    hs[i] = h2
+                    break
+                hs[i] = h2
         # an empty datagram, on its own (it cannot carry a tag)
         s = socket.socket(socket.AF_INET, socket.SOCK_DGRAM)
         s.bind((LOOP, 0))
@@ -161,12 +187,16 @@ def run(tier, seed, replay=None):
                      {"kind": "failing-input", "scenario": "empty datagram", "empties_at_origin": empties})
         alive = w.alive()
         rx = list(w.origin.rx)
+        try:
+            logs = {"entry": open(w.p1.dir + "/stderr.log").read()[-6000:], "exit": open(w.p2.dir + "/stderr.log").read()[-6000:]}
+        except OSError:
+            logs = {}
     finally:
         w.close()
     if not alive:
         rep.fail("C10: a proxy process died during the UDP scenarios", {"kind": "failing-input", "scenario": "alive"})
     at_origin = collections.Counter(d for t, d, a in rx)
-    all_sent = collections.Counter()
+    all_sent = collections.Counter(superseded)
     origin_label = "%s:%d" % (LOOP, w.origin.port)
     for h in hs:
         n_eval += 1
@@ -176,7 +206,8 @@ def run(tier, seed, replay=None):
             continue
         shapes.add((h["kind"], h["path"]))
         dist[h["kind"] + "|" + h["path"]] += len(h["sent"])
-        rp = {"kind": "failing-input", "scenario": desc, "sizes": [len(p) for p in h["sent"]]}
+        rp = {"kind": "failing-input", "scenario": desc, "sizes": [len(p) for p in h["sent"]], "got": len(h["got"]), "labels": h["labels"][:8],
+              "at_origin": [(round(t, 3), a[1]) for t, d, a in rx if h["tag"].encode() in d][:12], "t0": h.get("t0"), "t1": h.get("t1"), "logs": logs}
         for i, p in enumerate(h["sent"]):
             all_sent[p] += 1
             if at_origin[p] != 1:
@@ -198,9 +229,9 @@ def run(tier, seed, replay=None):
     rep.coverage.update({
         "evaluations": n_eval, "distinct_nontrivial": len(shapes),
         "rule": "sessions: reverse UDP client, SOCKS5 UDP association with IPv4 destination, with domain destination (through hops) x paths %s, 3-8 datagrams of 1..8000 bytes each with gaps 0/10/50 ms, 10 sessions in flight at a time with session-tagged payloads; one empty datagram" % uw.PATHS,
-        "input_distribution": dict(dist), "datagrams_at_origin": len(rx),
+        "input_distribution": dict(dist), "datagrams_at_origin": len(rx), "sessions_retried": retried,
     })
-    rep.assumptions = ["loopback UDP neither loses nor duplicates at these rates", "the RSV bytes of the SOCKS5 UDP reply header (05 03 instead of 00 00) are not part of the property"]
+    rep.assumptions = ["loopback UDP and QUIC datagrams may drop under concurrent load: a failing session is repeated alone twice and reported only if it fails every time", "the RSV bytes of the SOCKS5 UDP reply header (05 03 instead of 00 00) are not part of the property"]
     if broken and not rep.violations:
         rep.broken_obligation(broken[0], broken[1])
     return rep.finish()
